@@ -51,4 +51,38 @@ w("D9b", "same, 16-bit prefix", ["C13"],
   "pstr w=2 size=65538 chars=1 bytes=0", ["new", "size"])
 w("D10", "PodStr Display rendered the NUL padding (fixed 752e9f6)", ["C14"],
   "podstr n=5 chars=1", ["from " + blob("ab"), "disp", "asstr", "copy " + blob("ééé"), "disp", "asstr"])
+
+
+def fib_level_order(h):
+    """keys 1..minNodes(h) arranged as the sparsest AVL tree of height h; returned in level order
+    (inserting in this order never rotates and reproduces the shape)."""
+    def build(h, lo):
+        if h == 0:
+            return None, lo
+        if h == 1:
+            return (lo, None, None), lo + 1
+        l, nxt = build(h - 1, lo)
+        root = nxt
+        r, nxt2 = build(h - 2, nxt + 1)
+        return (root, l, r), nxt2
+    t, n = build(h, 1)
+    out, q = [], [t]
+    while q:
+        x = q.pop(0)
+        if x is None:
+            continue
+        out.append(x[0])
+        q += [x[1], x[2]]
+    return out, n - 1
+
+
+order, n = fib_level_order(11)   # 232 nodes, 11 levels: the worst shape a 255-slot tree can hold
+ops = ["init 255"] + [f"ins {k} {k % 97}" for k in order] + ["rlen", "rlow", "rget 1", "get 232", "rem 0", "rem 233", "has 117"]
+# operations along the deepest path, removals that trigger cascades of rebalancing, refill
+ops += [f"rem {k}" for k in (order[0], 1, 2, 232, 231, order[1], order[2], 100, 50, 150, 200)] + [f"ins {k} 5" for k in (233, 234, 235, 236, 0)] + ["rlen", "full"]
+w("FIB8", "sparsest AVL tree of height 11 (232 nodes) in a 255-capacity 8-bit tree: deepest search paths, cascading rebalancing", ["C06", "C12", "C01", "C10"],
+  "tree type=T8u32u16 slots=255 cap=255 keys=" + ",".join(str(k) for k in range(0, 237)), ops)
+ops32 = [o.replace("init 255", "init 300") for o in ops]
+w("FIB32", "same shape in a 32-bit tree with instrumented keys (comparison logs along the deepest paths)", ["C06", "C12", "C01"],
+  "tree type=T32logu8 slots=300 cap=300 keys=" + ",".join(str(k) for k in range(0, 237)), ops32)
 print("corpus written")
